@@ -147,6 +147,14 @@ class Alg:
             if hit:
                 md = {a: p for a, p in md.items() if p}
         for a, p in md.items():
+            if p >= 2 and a.startswith('inv(') and self.inverse.get(a) in self.sqrt_of:
+                # inv(sqrt(P))^2 -> 1 / P
+                rest = dict(md)
+                rest[a] = p - 2
+                rest = {x: y for x, y in rest.items() if y}
+                base = Poly({tuple(sorted(rest.items())): coef})
+                rp = self.recip(self._r(self.sqrt_of[self.inverse[a]]))
+                return self.p_mul(base, rp.n)
             if p >= 2 and a in self.sqrt_of:
                 rest = dict(md)
                 rest[a] = p - 2
@@ -351,9 +359,23 @@ class Alg:
         self.sqrt_of[name] = p
         return Rat(self.p_atom(name), self.p_const(1))
 
+    def _quarter_turns(self, a):
+        """Split a = rest + k * 90 * D2R  (k integer) -> (rest, k) or (a, 0)."""
+        m = ((self.D2R, 1),)
+        c = a.n.t.get(m)
+        if c is not None and c % 90 == 0:
+            t = dict(a.n.t)
+            del t[m]
+            return self._r(Poly(t)), int(c // 90) % 4
+        return a, 0
+
     def sin(self, a):
         if self.is_zero(a):
             return self.const(0)
+        rest, k = self._quarter_turns(a)
+        if k:
+            return [None, self.cos(rest), self.neg(self.sin(rest)),
+                    self.neg(self.cos(rest))][k]
         k = self.key(a)
         # odd function: canonical sign
         nk = self.key(self.neg(a))
@@ -366,6 +388,10 @@ class Alg:
     def cos(self, a):
         if self.is_zero(a):
             return self.const(1)
+        rest, k = self._quarter_turns(a)
+        if k:
+            return [None, self.neg(self.sin(rest)), self.neg(self.cos(rest)),
+                    self.sin(rest)][k]
         k = self.key(a)
         nk = self.key(self.neg(a))
         if k < nk:
@@ -459,3 +485,51 @@ class Alg:
         """First two Maclaurin coefficients (c0, c1) in atom `eps`."""
         d = self.degree_split(a, eps)
         return d.get(0, self.const(0)), d.get(1, self.const(0))
+
+    # ---------------------------------------------------------- differentiation
+    def diff(self, a, x):
+        """Partial derivative with respect to atom x (chain rule through sin, cos, sqrt,
+        inv atoms; every other atom is an independent variable)."""
+        iv = getattr(self, 'inv_of', {})
+        cache = {}
+
+        def d_atom(at):
+            if at in cache:
+                return cache[at]
+            if at == x:
+                r = self.const(1)
+            elif x not in self._nested_atoms(at):
+                r = self.const(0)
+            elif at in self.sin_arg:
+                r = self.mul(self.cos(self.sin_arg[at]), self.diff(self.sin_arg[at], x))
+            elif at in self.cos_arg:
+                r = self.neg(self.mul(self.sin(self.cos_arg[at]),
+                                      self.diff(self.cos_arg[at], x)))
+            elif at in self.sqrt_of:
+                p = self._r(self.sqrt_of[at])
+                r = self.div(self.diff(p, x), self.mul(self.const(2), self._r(self.p_atom(at))))
+            elif at in iv:
+                p = self._r(iv[at])
+                me = self._r(self.p_atom(at))
+                r = self.neg(self.mul(self.mul(me, me), self.diff(p, x)))
+            elif at.startswith('inv(') and at in self.inverse:
+                me = self._r(self.p_atom(at))
+                r = self.neg(self.mul(self.mul(me, me), d_atom(self.inverse[at])))
+            else:
+                r = self.const(0)
+            cache[at] = r
+            return r
+        out = Poly()
+        for m, c in a.n.t.items():
+            for i, (at, pw) in enumerate(m):
+                da = d_atom(at)
+                if da.n.is_zero():
+                    continue
+                rest = list(m)
+                if pw == 1:
+                    del rest[i]
+                else:
+                    rest[i] = (at, pw - 1)
+                term = self.p_mul(Poly({tuple(rest): c * pw}), da.n)
+                out = self.p_add(out, term)
+        return self._r(out)
